@@ -1039,7 +1039,7 @@ impl BuiltInFunction {
                         list[idx]
                     };
                     let key_result = func_def.call(
-                        Value::Null,
+                        *func,
                         vec![item],
                         Rc::clone(&heap),
                         Rc::clone(&bindings),
@@ -1090,7 +1090,7 @@ impl BuiltInFunction {
                         list[idx]
                     };
                     let key_result = func_def.call(
-                        Value::Null,
+                        *func,
                         vec![item],
                         Rc::clone(&heap),
                         Rc::clone(&bindings),
@@ -1307,7 +1307,7 @@ impl BuiltInFunction {
                     };
 
                     let result = func_def.call(
-                        Value::Null,
+                        *func,
                         args,
                         Rc::clone(&heap),
                         Rc::clone(&bindings),
@@ -1348,7 +1348,7 @@ impl BuiltInFunction {
                     };
 
                     let result = func_def.call(
-                        Value::Null,
+                        *func,
                         args,
                         Rc::clone(&heap),
                         Rc::clone(&bindings),
@@ -1392,7 +1392,7 @@ impl BuiltInFunction {
                     };
 
                     accumulator = func_def.call(
-                        Value::Null,
+                        *func,
                         args,
                         Rc::clone(&heap),
                         Rc::clone(&bindings),
@@ -1431,7 +1431,7 @@ impl BuiltInFunction {
                     };
 
                     let result = func_def.call(
-                        Value::Null,
+                        *func,
                         args,
                         Rc::clone(&heap),
                         Rc::clone(&bindings),
@@ -1473,7 +1473,7 @@ impl BuiltInFunction {
                     };
 
                     let result = func_def.call(
-                        Value::Null,
+                        *func,
                         args,
                         Rc::clone(&heap),
                         Rc::clone(&bindings),
@@ -1502,7 +1502,7 @@ impl BuiltInFunction {
                     match func_def {
                         Some(fd) => {
                             let result_a = fd.call(
-                                Value::Null,
+                                *func,
                                 vec![*a],
                                 Rc::clone(&heap),
                                 Rc::clone(&bindings),
@@ -1510,7 +1510,7 @@ impl BuiltInFunction {
                                 source,
                             );
                             let result_b = fd.call(
-                                Value::Null,
+                                *func,
                                 vec![*b],
                                 Rc::clone(&heap),
                                 Rc::clone(&bindings),
